@@ -34,6 +34,7 @@ type Obligation struct {
 	Site    string
 	Detail  string
 	Harness string
+	Raw      []*Term // complete query (deadlock obligations): satisfiable = violated
 	NoReplay bool // engine-generated obligation without a native counterpart
 	// results
 	Res      string
@@ -409,6 +410,9 @@ func (e *Exec) run(st *State, blk *ssa.BasicBlock, idx int, stops []*ssa.BasicBl
 				kind := "unwind"
 				if e.conc != nil || e.cfg["unwind"] == "assume" {
 					kind = "bound" // stated bound: executions needing more rounds of this loop are outside the claim
+				}
+				if e.conc != nil {
+					e.conc.noteTruncation(st)
 				}
 				e.issues = append(e.issues, Issue{kind, fmt.Sprintf("loop bound %d exceeded at %s block %d (%s)", e.unroll, fr.Fn, blk.Index, e.prog.Fset.Position(t.Pos()))})
 				return nil
